@@ -406,6 +406,12 @@ ASMJIT_FAVOR_SIZE Error init_func_detail(FuncDetail& func, const FuncSignature& 
             else {
               // Each stack argument occupies a whole number of stack slots (4 bytes in 32-bit mode, 8 in 64-bit mode).
               uint32_t size = Support::align_up(TypeUtils::size_of(type_id), register_size);
+
+              // Vector arguments (XMM|YMM|ZMM) passed by stack are aligned to their size.
+              if (TypeUtils::is_vec(type_id) && size >= 16u) {
+                stack_offset = Support::align_up(stack_offset, size);
+              }
+
               arg.assign_stack_offset(int32_t(stack_offset));
               stack_offset += size;
             }
